@@ -1,6 +1,11 @@
 package mon
 
 import (
+	"bytes"
+	"reflect"
+
+	"github.com/amzn/ion-go/ion"
+
 	"encoding/hex"
 	"encoding/json"
 	"fmt"
@@ -131,6 +136,71 @@ func judgeRead(k *ReadCase, data []byte, unordered bool) string {
 	}
 	if len(obs.Soft) > 0 {
 		return "accessor inconsistency: " + obs.Soft[0]
+	}
+	return judgeDecodeAll(k.Vals, data)
+}
+
+// judgeDecodeAll reads the same input through Decoder.Decode and looks at the Go values only after
+// the whole stream has been decoded: what the library handed out for an earlier value (big ints,
+// timestamps, lobs, strings inside lists and structs) must not change when it reads on. Streams
+// with symbols of unknown text or repeated field names have no faithful map image and are skipped.
+func judgeDecodeAll(vals []*model.Value, data []byte) (verdict string) {
+	ok := true
+	model.Walk(vals, func(v *model.Value, _ int) {
+		if v.Kind == model.Symbol && !v.IsNull && !v.Sy.HasText {
+			ok = false
+		}
+		if v.Kind == model.Struct {
+			seen := map[string]bool{}
+			for _, k := range v.Kids {
+				if k.Field == nil || !k.Field.HasText || seen[k.Field.Text] {
+					ok = false
+				} else {
+					seen[k.Field.Text] = true
+				}
+			}
+		}
+	})
+	if !ok || len(vals) == 0 {
+		return ""
+	}
+	defer func() {
+		if rec := recover(); rec != nil {
+			verdict = "Decoder panic: " + ionx.PanicSite(rec)
+		}
+	}()
+	d := ion.NewDecoder(ion.NewReader(bytes.NewReader(data)))
+	xs := make([]interface{}, len(vals))
+	for i := range vals {
+		x, err := d.Decode()
+		if err != nil {
+			return fmt.Sprintf("Decoder.Decode of value %d of %d: %v", i, len(vals), err)
+		}
+		xs[i] = x
+	}
+	var normEmpty func(v *model.Value)
+	normEmpty = func(v *model.Value) { // an empty list or sexp comes back as a nil slice
+		if (v.Kind == model.List || v.Kind == model.Sexp) && len(v.Kids) == 0 {
+			v.Kind, v.IsNull = model.Null, true
+		}
+		for _, k := range v.Kids {
+			normEmpty(k)
+		}
+	}
+	for i := range vals {
+		img, ok := imageOf(reflect.ValueOf(&xs[i]).Elem(), "", true)
+		if !ok {
+			continue
+		}
+		want := vals[i].Clone()
+		want.Ann, want.Field = nil, nil
+		norm(want)
+		norm(img)
+		normEmpty(want)
+		normEmpty(img)
+		if df := model.DiffOpt([]*model.Value{want}, []*model.Value{img}, model.EqOpts{UnorderedStructs: true}); df != "" {
+			return fmt.Sprintf("Decoder.Decode: value %d of %d, looked at after the whole stream was decoded: %s", i, len(vals), df)
+		}
 	}
 	return ""
 }
